@@ -84,3 +84,26 @@ Proof. exact iterative_ion_events. Qed.
 Theorem C16_exception_dispatch_consistent : forallb dispatch_row_ok Inventory_gen.exception_dispatch = true /\ List.length Inventory_gen.exception_dispatch = 10%nat.
 Proof. exact dispatch_consistent. Qed.
 Print Assumptions C16_iterative_acid_base_pair.
+
+(* ---- the reported AVERAGE over conformations (model/Dets.v, the operation sequence of C08): the buried fraction stays in [0,1] and the
+   desolvation term keeps its sign when every conformation's value has it *)
+From V Require Import Dets DetsProofs.
+Theorem C16_average_buried_fraction_unit : forall (s : state R) dst src0 (srcs : list (nat * list nat)),
+  ~ In dst (map fst srcs) -> srcs <> [] -> (forall x, In x (map fst srcs) -> 0 <= g_buried (s x) <= 1) ->
+  let n := INR (length srcs) in let sc := step s (OClone dst src0) in
+  let s' := step (iadd_all sc dst srcs) (ODiv dst n) in 0 <= g_buried (s' dst) <= 1.
+Proof.
+  intros s dst src0 srcs H1 H2 H3 n sc s'.
+  destruct (average_is_mean_over_present s dst src0 srcs H1) as (_ & _ & _ & D & _). unfold s', sc, n. rewrite D.
+  exact (average_in_range (@g_buried R) s dst src0 srcs 0 1 H1 H2 H3).
+Qed.
+Theorem C16_average_desolvation_sign : forall (s : state R) dst src0 (srcs : list (nat * list nat)) lo hi,
+  ~ In dst (map fst srcs) -> srcs <> [] -> (forall x, In x (map fst srcs) -> lo <= g_vol (s x) <= hi) ->
+  let n := INR (length srcs) in let sc := step s (OClone dst src0) in
+  let s' := step (iadd_all sc dst srcs) (ODiv dst n) in lo <= g_vol (s' dst) <= hi.
+Proof.
+  intros s dst src0 srcs lo hi H1 H2 H3 n sc s'.
+  destruct (average_is_mean_over_present s dst src0 srcs H1) as (_ & B & _). unfold s', sc, n. rewrite B.
+  exact (average_in_range (@g_vol R) s dst src0 srcs lo hi H1 H2 H3).
+Qed.
+Print Assumptions C16_average_buried_fraction_unit.
